@@ -484,7 +484,26 @@ def check_reader(chk) -> None:
             num = Folder(repo, M).try_fold(s.value)
         if isinstance(s, ast.Assign) and norm(s.targets[0]) == "categorical_columns":
             cat = Folder(repo, M).try_fold(s.value)
-    chk.expect(num == ["serial", "resSeq", "x", "y", "z", "occupancy", "tempFactor", "model"] and cat == ["record_type", "name", "altLoc", "resName", "chainID", "element", "charge"], "reader-types", fi.where, "numeric and categorical PDB columns as declared", "the typing of PDB columns changed (numeric/categorical lists)", K(fi, "types"))
+    typed = None
+    try:
+        # the typing decided on the table the interpreted reader returns for a fully populated atom line
+        from checks import c08e as _c08e
+        from sa.frame import isna as _isna
+
+        _sp = spec("pdb_columns.json")
+        _t = _c08e.V2Reader(repo).read([_c08e.pdb_line(_sp, "ATOM", _c08e.ATOM_FIELDS)])
+        if len(_t.index) == 1:
+            row = {c: _t._cols[c][0] for c in _t._cols}
+            want_num = {"serial": int, "resSeq": int, "model": int, "x": float, "y": float, "z": float, "occupancy": float, "tempFactor": float}
+            typed = {c: type(row.get(c)).__name__ for c in list(want_num) + ["record_type", "name", "altLoc", "resName", "chainID", "iCode", "element", "charge"]}
+            bad_t = {c: typed[c] for c, ty in want_num.items() if not isinstance(row.get(c), (int, float)) or isinstance(row.get(c), bool) or (ty is int and float(row[c]) != int(row[c]))}
+            bad_t.update({c: typed[c] for c in ("record_type", "name", "altLoc", "resName", "chainID", "iCode", "element", "charge") if not isinstance(row.get(c), str)})
+            chk.robust.add("reader-types")
+            chk.expect(not bad_t, "reader-types", fi.where, "evaluated: serial, residue number and model come back as integers, coordinates, occupancy and B as numbers, the other fields as text", f"the reader types PDB columns wrongly: {bad_t}", K(fi, "types"), found=bad_t)
+    except Exception:
+        typed = None
+    if typed is None:
+      chk.expect(num == ["serial", "resSeq", "x", "y", "z", "occupancy", "tempFactor", "model"] and cat == ["record_type", "name", "altLoc", "resName", "chainID", "element", "charge"], "reader-types", fi.where, "numeric and categorical PDB columns as declared", "the typing of PDB columns changed (numeric/categorical lists)", K(fi, "types"))
     # blank optional fields: the line loop evaluated on an ATOM line whose optional fields are blank
     from checks import c08e
     from sa.blockeval import Unknown
@@ -671,7 +690,6 @@ def run(chk) -> None:
     if not evaluated:
         check_other_lines(chk)
         check_record_order(chk)
-    c09e.check_atom_data_keys(chk)
     # the four round trips, every writer and reader interpreted; the reading of the pinned field tables (check_field_maps) is the fallback
     crossed = False
     try:
@@ -680,6 +698,7 @@ def run(chk) -> None:
         raise
     except Exception as ex:
         chk.ok("cross-path-eval", "-", f"evaluation of the round trips failed internally ({type(ex).__name__}: {str(ex)[:60]}): the pinned-form rules decide")
+    c09e.check_atom_data_keys(chk, evaluated=bool(crossed and evaluated))
     if crossed:
         from checks.c15 import _Decided
 
